@@ -24,7 +24,9 @@ man = dict(
         baseline_off_cmd='cd /repo && /venv/bin/python -m pytest -ra -q -p no:cacheprovider --timeout=900 --continue-on-collection-errors',
         source_commits=[], add_only=True),
     engines=[dict(name='E1-crosshair-on-real-code-over-numpy-model', path='vf/', serves_properties=sorted(M.CHECKS),
-        kind_free_text='CrossHair 0.0.110 (z3) symbolic execution of /repo functions with numpy/automap bound to vf/npmodel; per-condition processes; replay on real NumPy')],
+        kind_free_text='CrossHair 0.0.110 (z3) symbolic execution of /repo functions with numpy/automap bound to vf/npmodel; per-condition processes; replay on real NumPy'),
+        dict(name='E3-ast-to-z3-second-opinion', path='vf/e3.py', serves_properties=['C04', 'C08'],
+        kind_free_text='Python AST of three loop-free integer kernels (slice_to_ascending_slice, TypeBlocks._cols_to_slice, slice_to_inclusive_slice) read from /repo at run time and interpreted into z3 Int terms; unbounded integers, step fixed per query; z3 API and /usr/bin/z3 4.8.12 must agree; counterexamples replayed on the real function; runs as extra queries of the C04 / C08 checks')],
     checks=checks,
     notes=M.NOTES,
     not_applicable=[dict(property_id=k, reason=v) for k, v in M.NOT_APPLICABLE.items()],
